@@ -98,6 +98,18 @@ func faultKinds() []faultKind {
 		{name: "element-without-data", signal: true, elem: func(el map[string]interface{}) (map[string]interface{}, bool) {
 			return map[string]interface{}{}, true
 		}},
+		{name: "element-data-null", signal: true, elem: func(el map[string]interface{}) (map[string]interface{}, bool) {
+			return map[string]interface{}{"data": nil}, true
+		}},
+		{name: "element-data-null-errors-empty", signal: true, elem: func(el map[string]interface{}) (map[string]interface{}, bool) {
+			return map[string]interface{}{"data": nil, "errors": []interface{}{}}, true
+		}},
+		{name: "element-errors-empty-without-data", signal: true, elem: func(el map[string]interface{}) (map[string]interface{}, bool) {
+			return map[string]interface{}{"errors": []interface{}{}}, true
+		}},
+		{name: "element-errors-null-without-data", signal: true, elem: func(el map[string]interface{}) (map[string]interface{}, bool) {
+			return map[string]interface{}{"errors": nil, "extensions": map[string]interface{}{"x": 1.0}}, true
+		}},
 		{name: "node-key-missing", signal: true, nodeOnly: true, elem: func(el map[string]interface{}) (map[string]interface{}, bool) {
 			d, ok := dataOf(el)
 			if !ok {
